@@ -79,8 +79,10 @@ theorem c13_submit_reject_no_effect (s s' : State) (j mf : Option Nat) (d : Task
       · split at h
         · cases h; exact ⟨rfl, rfl, rfl⟩
         · split at h
-          · cases h
-          · cases h; exact absurd rfl (hr _)
+          · cases h; exact ⟨rfl, rfl, rfl⟩
+          · split at h
+            · cases h
+            · cases h; exact absurd rfl (hr _)
     · split at h
       · cases h
       · split at h
